@@ -1,0 +1,67 @@
+//go:build verif
+
+// Contracts for the deductive verifier in /verif (govc): archive indexing
+// (C15). Comment-only file, compiled only with -tags verif.
+
+package archive
+
+// index.NewBuilder either fails or returns a builder (assumed).
+//@ func index.NewBuilder
+//@   trusted
+//@   flag only_for=archive.
+//@   ensures result1 == nil ==> result0 != nil
+//@   assigns nothing
+
+// Index never finishes a build it has not started: whatever the archive
+// contains - including no regular file at all - the builder handed to Finish
+// exists. (Finish's own contract requires a non-nil builder; the obligation is
+// generated at the call.)
+//@ func archive.Index
+//@   may_panic
+//@   requires !effectFailed
+//@   loop 1:
+//@     invariant !effectFailed
+//@   ensures true
+
+// ---------------------------------------------------------------------------
+// Which archive members become documents
+// ---------------------------------------------------------------------------
+
+// lastTarType mirrors the type flag of the header most recently returned by
+// the tar reader (ghost).
+//@ ghost var lastTarType int
+//@ func tar.(*Reader).Next
+//@   trusted
+//@   ensures result1 == nil ==> result0 != nil && lastTarType == result0.Typeflag
+//@   assigns lastTarType
+
+// tarArchive.Next hands out regular members only ('0' or the legacy NUL type
+// flag); everything else - directories, links, devices, extended headers - is
+// skipped; an error of the tar reader (including end of archive) is passed on.
+//@ func archive.(*tarArchive).Next
+//@   requires a != nil && a.tr != nil
+//@   loop 1:
+//@     invariant a.tr != nil
+//@   ensures result1 == nil ==> result0 != nil && (lastTarType == 48 || lastTarType == 0)
+//@   ensures result1 != nil ==> result0 == nil
+
+// zipArchive.Next hands out the members in order, each exactly once, and
+// reports end of archive exactly when none is left.
+//@ func zip.(*File).Open
+//@   trusted
+//@   assigns nothing
+//@ func archive.(*zipArchive).Next
+//@   requires a != nil && (forall k int :: 0 <= k && k < len(a.files) ==> a.files[k] != nil)
+//@   ensures old(len(a.files)) == 0 ==> result0 == nil && a.files == old(a.files)
+//@   ensures old(len(a.files)) > 0 ==> a.files == old(a.files)[1:]
+//@   ensures old(len(a.files)) > 0 && result1 == nil ==> result0 != nil && result0.Name == old(a.files[0].Name)
+
+// stripComponents removes `count` leading path elements, returning "" when
+// there are fewer; it never fails on any path and any count, and terminates.
+//@ func archive.stripComponents
+//@   loop 1:
+//@     invariant 0 <= i && len(path) <= len(old(path))
+//@     invariant old(count) <= 0 ==> path == old(path)
+//@     decreases len(path)
+//@   ensures count <= 0 ==> result == path
+//@   ensures len(result) <= len(path)
